@@ -20,7 +20,7 @@ INFO = {
 }
 
 PATTERNS = ['/x', '/x/', '/x/<a>', '/<a>', '/<a>/<b?>', '/z/<p*>', '/', '/y/<q+>/', '/n/<k:int>']
-METHODS = [None, None, ['GET'], ['POST'], ['GET', 'POST']]
+METHODS = [None, None, ['GET'], ['POST'], ['GET', 'POST'], ['get'], ['Post', 'get']]
 BEH = ['ctx', 'ctx', 'response', 'raise403', 'ret404', 'nb403', 'boom']
 PATHS = ['/x', '/x/', '/x/1', '/x/a', '/z', '/', '/x/a/b', '/y/1/2/', '/y/1', '//x', '/y', '/z/q/r', '', '/n/7', '/n/7/']
 REQM = ['GET', 'POST', 'HEAD', 'DELETE']
